@@ -1159,7 +1159,15 @@ def mutate(rng, text):
 
 FAULTS = ["dangling_extends", "dangling_extends_include", "circular_extends", "throws_non_exception",
           "throws_container", "throws_alias_non_exception", "dup_field_name", "dup_arg_name", "dup_throws_name",
-          "dup_throws_id", "dup_arg_id", "dup_field_id", "dup_prefix_var"]
+          "dup_throws_id", "dup_arg_id", "dup_field_id", "dup_prefix_var",
+          # values which do not conform to the declared type (repo fix "validation checks that constant values
+          # and default values conform to their declared type", was C11-K13)
+          "const_wrong_kind", "const_out_of_range", "const_bad_element", "const_enum_undeclared",
+          "const_struct_bad", "const_ref_wrong_kind", "const_nested_dangling_ref", "default_wrong_kind",
+          "default_arg_wrong_kind",
+          # a different file of the including file's name (repo fix "include cycles are detected by the cleaned
+          # path", was C11-K14): no cycle, and a real cycle through two files of one name
+          "include_same_name_other_dir", "include_same_name_cycle"]
 
 # what the diagnostic of the rejected file must contain (the include chain prefixes "Include x: ")
 FAULT_MSG = {
@@ -1176,6 +1184,17 @@ FAULT_MSG = {
     "dup_arg_id": r"Duplicate field id -?\d+ in method \S+",
     "dup_field_id": r"Duplicate field id -?\d+ in struct \S+",
     "dup_prefix_var": r"Duplicate prefix variable \S+ in scope \S+",
+    "const_wrong_kind": r"Invalid value for constant \S+: expected \S+, got ",
+    "const_out_of_range": r"Invalid value for constant \S+: expected (i8|byte|i16|i32), got integer -?\d+",
+    "const_bad_element": r"Invalid value for constant \S+: expected \S+, got ",
+    "const_enum_undeclared": r"Invalid value for constant \S+: expected \S+, got (integer -?\d+|identifier \S+|a string)",
+    "const_struct_bad": r"Invalid value for constant \S+: expected ",
+    "const_ref_wrong_kind": r"Invalid value for constant \S+: expected \S+, got identifier \S+",
+    "const_nested_dangling_ref": r"Referenced constant \S+ not found",
+    "default_wrong_kind": r"Invalid value for field \S+ of struct \S+: expected \S+, got ",
+    "default_arg_wrong_kind": r"Invalid value for field \S+ of method \S+: expected \S+, got ",
+    "include_same_name_other_dir": r"Duplicate file name \S+: \S+ is included by way of \S+ \(includes and generated code are named after the file name\)",
+    "include_same_name_cycle": r"Duplicate file name \S+: \S+ is included by way of \S+ ",
 }
 
 
@@ -1325,7 +1344,348 @@ def inject_fault(gen, m, kind):
         sc["prefix"] = b".".join(toks)
         sc["vars"] = [t[1:-1] for t in toks if t.startswith(b"{") and t.endswith(b"}")]
         return sc["name"]
+    if kind in VALUE_FAULTS:
+        return VALUE_FAULTS[kind](gen, rng, m)
+    if kind in ("include_same_name_other_dir", "include_same_name_cycle"):
+        # gen_program (c10.py) places the extra file beside the victim: [m["_self"]] is the victim's base name
+        base = m["_self"]
+        body = b"struct Deep%d {}\n" % rng.randrange(1000)
+        if kind == "include_same_name_cycle":
+            body = b'include "../' + base + b'"\n' + body
+        m["_extra_files"] = {b"zzdup/" + base: body}
+        at = 0
+        while at < len(m["decls"]) and m["decls"][at][0] == "include" and rng.random() < 0.5:
+            at += 1
+        m["decls"].insert(at, ("include", {"value": b"zzdup/" + base, "anns": []}))
+        return base
     raise ValueError(kind)
+
+
+def _ct(name, key=None, val=None):
+    return {"name": name, "key": key, "val": val, "anns": []}
+
+
+def _new_const(gen, m, t, v):
+    d = {"doc": None, "name": gen.const_name(), "type": t, "value": v, "anns": []}
+    m["decls"].append(("const", d))
+    m.setdefault("local_consts", []).append(d["name"])
+    return d["name"]
+
+
+def _wrong_scalar(gen, rng, base):
+    """a literal of a kind the base type does not take"""
+    ints, strs, bools, dbls = ("int", gen.int_value()), ("str", gen.text()), ("bool", rng.random() < 0.5), ("double", gen.double_value())
+    lst, mp = ("list", []), ("map", [])
+    wrong = {b"bool": [ints, strs, dbls, lst, mp], b"string": [ints, bools, dbls, lst, mp], b"binary": [ints, bools, dbls, lst, mp],
+             b"double": [strs, bools, lst, mp]}
+    return rng.choice(wrong.get(base, [strs, bools, dbls, lst, mp]))
+
+
+def _f_const_wrong_kind(gen, rng, m):
+    r = rng.random()
+    if r < 0.5:
+        b = rng.choice(BASE_TYPES + [b"i8"])
+        return _new_const(gen, m, _ct(b), _wrong_scalar(gen, rng, b))
+    c = rng.choice([b"list", b"set", b"map"])
+    t = _ct(c, _ct(b"string") if c == b"map" else None, _ct(rng.choice(BASE_TYPES)))
+    v = rng.choice([("int", 5), ("str", b"x"), ("bool", True), ("double", gen.double_value()),
+                    ("list", []) if c == b"map" else ("map", [])])
+    return _new_const(gen, m, t, v)
+
+
+def _f_const_out_of_range(gen, rng, m):
+    b, lo, hi = rng.choice([(b"byte", -2**7, 2**7), (b"i8", -2**7, 2**7), (b"i16", -2**15, 2**15), (b"i32", -2**31, 2**31)])
+    v = rng.choice([hi, lo - 1, hi + rng.randrange(0, 1000), lo - 1 - rng.randrange(0, 1000), 2**63 - 1, -2**63])
+    t = _ct(b)
+    if rng.random() < 0.3:
+        t = _ct(_new_decl(gen, m, "typedef", type=t)["name"])
+    return _new_const(gen, m, t, ("int", v))
+
+
+def _f_const_bad_element(gen, rng, m):
+    b = rng.choice([b"i32", b"string", b"bool", b"double", b"i64"])
+    good = {b"i32": ("int", 1), b"string": ("str", b"s"), b"bool": ("bool", False), b"double": ("double", gen.double_value()), b"i64": ("int", 2**40)}[b]
+    bad = _wrong_scalar(gen, rng, b)
+    r = rng.random()
+    if r < 0.4:
+        c = rng.choice([b"list", b"set"])
+        items = [good] * rng.randrange(0, 3) + [bad] + [good] * rng.randrange(0, 2)
+        return _new_const(gen, m, _ct(c, None, _ct(b)), ("list", items))
+    if r < 0.6:
+        return _new_const(gen, m, _ct(b"list", None, _ct(b"list", None, _ct(b))), ("list", [("list", [good]), ("list", [good, bad])]))
+    if r < 0.8:
+        return _new_const(gen, m, _ct(b"map", _ct(b"string"), _ct(b)), ("map", [(("str", b"a"), good), (("str", b"b"), bad)]))
+    return _new_const(gen, m, _ct(b"map", _ct(b), _ct(b"string")), ("map", [(good, ("str", b"a")), (bad, ("str", b"b"))]))
+
+
+def _enum_numbers(d):
+    out, nxt = [], 0
+    for v in d["values"]:
+        n = v["explicit"] if v["explicit"] is not None else nxt
+        nxt = n + 1
+        out.append((v["name"], n))
+    return out
+
+
+def _f_const_enum_undeclared(gen, rng, m):
+    a, b = gen.ident(), gen.ident()
+    e = _new_decl(gen, m, "enum", values=[{"doc": None, "name": a, "explicit": 1, "anns": []},
+                                          {"doc": None, "name": b, "explicit": None, "anns": []}])
+    other = _new_decl(gen, m, "enum", values=[{"doc": None, "name": a, "explicit": None, "anns": []}])
+    t = _ct(e["name"])
+    if rng.random() < 0.3:
+        t = _ct(_new_decl(gen, m, "typedef", type=t)["name"])
+    v = rng.choice([("int", 0), ("int", 3), ("int", -1), ("ident", other["name"] + b"." + a), ("str", a)])
+    return _new_const(gen, m, t, v)
+
+
+def _f_const_struct_bad(gen, rng, m):
+    kind = rng.choice(["struct", "union", "exception"])
+    st = _new_decl(gen, m, kind, fields=[_fld(1, b"first", _ct(b"i32")), _fld(2, b"second", _ct(b"string")),
+                                         _fld(3, b"third", _ct(b"list", None, _ct(b"bool")))])
+    t = _ct(st["name"])
+    if rng.random() < 0.3:
+        t = _ct(_new_decl(gen, m, "typedef", type=t)["name"])
+    v = rng.choice([("int", 5), ("list", []), ("str", b"x"),
+                    ("map", [(("int", 1), ("int", 2))]),
+                    ("map", [(("str", b"first"), ("str", b"one"))]),
+                    ("map", [(("ident", b"second"), ("int", 2))]),
+                    ("map", [(("str", b"first"), ("int", 1)), (("str", b"third"), ("list", [("bool", True), ("int", 0)]))]),
+                    ("map", [(("str", b"nosuchfield"), ("int", 1)), (("str", b"third"), ("int", 0))])])
+    return _new_const(gen, m, t, v)
+
+
+def _f_const_ref_wrong_kind(gen, rng, m):
+    pairs = [(b"i32", ("int", 1), b"string"), (b"string", ("str", b"s"), b"i64"), (b"bool", ("bool", True), b"i32"),
+             (b"double", ("double", gen.double_value()), b"i32"), (b"i32", ("int", 1), b"bool")]
+    src_t, src_v, dst = rng.choice(pairs)
+    src = _new_const(gen, m, _ct(src_t), src_v)
+    if rng.random() < 0.3:
+        return _new_const(gen, m, _ct(b"list", None, _ct(dst)), ("list", [("ident", src)]))
+    return _new_const(gen, m, _ct(dst), ("ident", src))
+
+
+def _f_const_nested_dangling_ref(gen, rng, m):
+    nosuch = gen.const_name()
+    gen.used.discard(nosuch)
+    r = rng.random()
+    if r < 0.5:
+        return _new_const(gen, m, _ct(b"list", None, _ct(b"i32")), ("list", [("int", 1), ("ident", nosuch)]))
+    return _new_const(gen, m, _ct(b"map", _ct(b"string"), _ct(b"i32")), ("map", [(("str", b"k"), ("ident", nosuch))]))
+
+
+def _f_default_wrong_kind(gen, rng, m):
+    b = rng.choice(BASE_TYPES)
+    bad = _wrong_scalar(gen, rng, b)
+    if rng.random() < 0.3:
+        b, bad = rng.choice([b"i16", b"byte"]), ("int", 70000)
+    sts = _decls_of(m, "struct", "exception")
+    if sts and rng.random() < 0.6:
+        d = rng.choice(sts)
+    else:
+        d = _new_decl(gen, m, rng.choice(["struct", "exception", "union"]), fields=[])
+    ids = {f["id"] for f in d["fields"]}
+    i = next(k for k in range(1, 200) if k not in ids)
+    nm = gen.ident()
+    gen.used.discard(nm)
+    while nm in {f["name"] for f in d["fields"]}:
+        nm += b"x"
+    d["fields"].append(_fld(i, nm, _ct(b), mod=rng.choice([0, 1, 2]), default=bad))
+    return d["name"]
+
+
+def _f_default_arg_wrong_kind(gen, rng, m):
+    me = _a_method(gen, rng, m)
+    b = rng.choice(BASE_TYPES)
+    fs = list(me["args"] or [])
+    ids = {f["id"] for f in fs}
+    i = next(k for k in range(1, 200) if k not in ids)
+    nm = gen.ident()
+    gen.used.discard(nm)
+    while nm in {f["name"] for f in fs}:
+        nm += b"x"
+    fs.append(_fld(i, nm, _ct(b), mod=2, default=_wrong_scalar(gen, rng, b)))
+    me["args"] = fs
+    return me["name"]
+
+
+VALUE_FAULTS = {
+    "const_wrong_kind": _f_const_wrong_kind, "const_out_of_range": _f_const_out_of_range,
+    "const_bad_element": _f_const_bad_element, "const_enum_undeclared": _f_const_enum_undeclared,
+    "const_struct_bad": _f_const_struct_bad, "const_ref_wrong_kind": _f_const_ref_wrong_kind,
+    "const_nested_dangling_ref": _f_const_nested_dangling_ref, "default_wrong_kind": _f_default_wrong_kind,
+    "default_arg_wrong_kind": _f_default_arg_wrong_kind,
+}
+
+
+# --------------------------------------------------------------------------------------------------
+# values that conform to their declared types (Frugal.validateValues): the model generator draws a
+# constant's type and value independently; this pass keeps the type and redraws the value from the same
+# pools of literals, directed by the type (typedefs followed in the file which declares them, enums by
+# number or by value name, struct literals with string and identifier keys and the odd key which names no
+# field, references to constants of the same kind)
+
+def _scoped_underlying(m, t):
+    for _ in range(200):
+        name = t["name"]
+        decl, pn = m, name
+        if b"." in name:
+            inc, pn = name.split(b".", 1)
+            if inc != b"":
+                decl = m.get("_incs", {}).get(inc)
+                if decl is None:
+                    return m, t
+        td = None
+        for k, d in decl["decls"]:
+            if k == "typedef" and d["name"] == pn:
+                td = d
+        if td is None:
+            return m, t
+        m, t = decl, td["type"]
+    return m, t      # a cycle of typedefs (the caller cuts them before it asks)
+
+
+def _declaring(m, name):
+    if b"." in name:
+        inc, pn = name.split(b".", 1)
+        if inc != b"":
+            return m.get("_incs", {}).get(inc), pn
+        return m, pn
+    return m, name
+
+
+def _find_decl(m, name, kinds):
+    decl, pn = _declaring(m, name)
+    if decl is None:
+        return None, None
+    for k, d in decl["decls"]:
+        if k in kinds and d["name"] == pn:
+            return decl, d
+    return None, None
+
+
+INT_RANGES = {b"i8": (-2**7, 2**7), b"byte": (-2**7, 2**7), b"i16": (-2**15, 2**15), b"i32": (-2**31, 2**31),
+              b"i64": (-2**63, 2**63)}
+
+
+def value_kind(m, t):
+    sc, u = _scoped_underlying(m, t)
+    n = u["name"]
+    if n in INT_RANGES:
+        return "integer"
+    if n in (b"string", b"binary"):
+        return "string"
+    if n in (b"bool", b"double", b"list", b"set", b"map"):
+        return n.decode()
+    pn = n.split(b".", 1)[1] if b"." in n else n
+    if _find_decl(sc, n, ("enum",))[1] is not None:
+        return "enum " + pn.decode("latin1")
+    return "struct " + pn.decode("latin1")
+
+
+def _constants_of_kind(m, kind, avoid):
+    out = []
+    for k, d in m["decls"]:
+        if k == "const" and d["name"] != avoid and value_kind(m, d["type"]) == kind:
+            out.append(d["name"])
+    for inc, im in m.get("_incs", {}).items():
+        for k, d in im["decls"]:
+            if k == "const" and value_kind(im, d["type"]) == kind:
+                out.append(inc + b"." + d["name"])
+    # a local enum named like the include and holding a value of that name would shadow inc.name
+    enums = {d["name"]: {v["name"] for v in d["values"]} for k, d in m["decls"] if k == "enum"}
+    return [c for c in out if not (b"." in c and c.split(b".")[1] in enums.get(c.split(b".")[0], ()))]
+
+
+def value_for(gen, home, m, t, depth=0, avoid=None):
+    """a value, written in the file [home], which conforms to the type [t] read in the scope [m]; None if
+    there is none (an enum without values)"""
+    rng = gen.rng
+    sc, u = _scoped_underlying(m, t)
+    n = u["name"]
+    kind = value_kind(m, t)
+    refs = _constants_of_kind(home, kind, avoid)
+    if kind == "double":
+        refs = refs + _constants_of_kind(home, "integer", avoid)
+    if refs and rng.random() < 0.15:
+        return ("ident", rng.choice(refs))
+    if n == b"bool":
+        return ("bool", rng.random() < 0.5)
+    if n in INT_RANGES:
+        lo, hi = INT_RANGES[n]
+        for _ in range(20):
+            v = gen.int_value()
+            if lo <= v < hi:
+                return ("int", v)
+        return ("int", rng.choice([lo, hi - 1, 0, -1, 1]))
+    if n == b"double":
+        return ("double", gen.double_value()) if rng.random() < 0.75 else ("int", gen.int_value())
+    if n in (b"string", b"binary"):
+        return ("str", gen.text())
+    if n in (b"list", b"set"):
+        items = [value_for(gen, home, sc, u["val"], depth + 1, avoid) for _ in range(rng.randrange(0, 4) if depth < 2 else 0)]
+        return ("list", [x for x in items if x is not None])
+    if n == b"map":
+        pairs = [(value_for(gen, home, sc, u["key"], depth + 1, avoid), value_for(gen, home, sc, u["val"], depth + 1, avoid))
+                 for _ in range(rng.randrange(0, 4) if depth < 2 else 0)]
+        return ("map", [p for p in pairs if p[0] is not None and p[1] is not None])
+    edecl, e = _find_decl(sc, n, ("enum",))
+    if e is not None:
+        nums = _enum_numbers(e)
+        if not nums:
+            return ("ident", rng.choice(refs)) if refs else None
+        vn, num = rng.choice(nums)
+        # by name where the enum can be named from [home]: Enum.VALUE, inc.Enum.VALUE
+        if rng.random() < 0.5:
+            if edecl is home:
+                return ("ident", e["name"] + b"." + vn)
+            for inc, im in home.get("_incs", {}).items():
+                local_enums = {d["name"] for k, d in home["decls"] if k == "enum"}
+                if im is edecl and inc not in local_enums:
+                    return ("ident", inc + b"." + e["name"] + b"." + vn)
+        return ("int", num)
+    sdecl, st = _find_decl(sc, n, ("struct", "union", "exception"))
+    if st is None:
+        return None
+    pairs = []
+    if depth < 2:
+        for f in st["fields"]:
+            if rng.random() < 0.5:
+                v = value_for(gen, home, sdecl, f["type"], depth + 1, avoid)
+                if v is not None:
+                    pairs.append((("str" if rng.random() < 0.6 else "ident", f["name"]), v))
+        if rng.random() < 0.15:
+            nm = gen.ident()
+            gen.used.discard(nm)
+            if nm not in {f["name"] for f in st["fields"]}:
+                pairs.append((("str", nm), gen.const_value({"consts": []})))
+        rng.shuffle(pairs)
+    return ("map", pairs)
+
+
+def conform_values(gen, m, incs, keep=()):
+    """[incs]: include key -> model of the included file (already conformed).  Redraw every constant value and
+    every default value of [m] so that it conforms to its declared type ([keep]: names of constants to leave
+    as they are)."""
+    m["_incs"] = dict(incs)
+    for k, d in m["decls"]:
+        if k == "const" and d["name"] not in keep:
+            v = value_for(gen, m, m, d["type"], avoid=d["name"])
+            if v is None:
+                d["type"], v = _ct(b"i32"), ("int", 0)
+            d["value"] = v
+    # (constants first: their types are final now, and a reference is judged by the declared type alone)
+    def fix(fields):
+        for f in fields or []:
+            if f.get("default") is not None:
+                f["default"] = value_for(gen, m, m, f["type"])
+    for k, d in m["decls"]:
+        if k in ("struct", "union", "exception"):
+            fix(d["fields"])
+        elif k == "service":
+            for me in d["methods"]:
+                fix(me["args"])
+                fix(me["throws"])
 
 
 def alias_throws(gen, m):
